@@ -25,8 +25,10 @@ from .interp import (
 
 
 class Loop:
-    def __init__(self, havoc=None, inv=None, lemmas=None, head=None, index=None, unroll=None, cut=False):
+    def __init__(self, havoc=None, inv=None, lemmas=None, head=None, index=None, unroll=None, cut=False, focus=None, no_merge=False):
         self.cut = cut
+        self.focus = focus or {}
+        self.no_merge = no_merge
         self.havoc = havoc or {}
         self.inv = inv or {}
         self.lemmas = lemmas or []
@@ -58,6 +60,7 @@ class Contract:
         self.call_ensures = kw.get("call_ensures")  # optional subset of ensures labels assumed at call sites
         self.pure_result = kw.get("pure_result", False)
         self.options = kw.get("options", {})
+        self.ghost_after = kw.get("ghost_after", {})
 
     def key(self):
         return (self.file, self.qualname)
@@ -79,7 +82,7 @@ class Contract:
         cst = State(dict(env), st.pc, st.guards, f.mod, f.cls)
         cst.env["__pre__"] = pre_env
         for name, expr in self.lets.items():
-            cst.env[name] = reg.eval_clause(interp, cst, expr)
+            cst.env[name] = reg.eval_clause_value(interp, cst, expr)
         # 1. preconditions are obligations of the caller
         for k, r in enumerate(self.requires):
             c = reg.eval_clause(interp, cst, r)
@@ -115,7 +118,7 @@ class Contract:
         if self.result is not None:
             rty = self.result
             if callable(rty) and not isinstance(rty, T.Type):
-                rty = rty(env)
+                rty = rty(cst.env)
             result, wf = rty.fresh(f"{self.qualname}.result")
             for w in wf:
                 st.assume(w)
@@ -127,6 +130,8 @@ class Contract:
         labels = self.call_ensures if self.call_ensures is not None else list(self.ensures)
         for lab in labels:
             c = reg.eval_clause(interp, pst, self.ensures[lab])
+            if c is False:
+                raise Outside(f"postcondition `{lab}` of {self.qualname} evaluates to False at this call site (contract/engine mismatch)", node)
             st.assume(c)
         # write back modified arguments
         if self.modifies:
@@ -210,6 +215,19 @@ class Registry:
             return v
         return truthy_value(interp, st, v)
 
+    def eval_clause_value(self, interp, st, expr):
+        """evaluate a specification expression to a value (ghost bindings)"""
+        tree = ast.parse(expr, mode="eval")
+        prev = interp.ctx.options.get("spec_mode", False)
+        interp.ctx.options["spec_mode"] = True
+        prev_v = V.SPEC_MODE
+        V.SPEC_MODE = True
+        try:
+            return interp.ev(tree.body, st)
+        finally:
+            interp.ctx.options["spec_mode"] = prev
+            V.SPEC_MODE = prev_v
+
     # ------------------------------------------------------------------ loops
     def loop_spec(self, ctx, node, st):
         con = ctx.current_contract
@@ -283,7 +301,7 @@ class LoopRunner:
             h.assume(k <= to_z3(n_total))
         inv_state(h, k)
         for lab, clause in spec.inv.items():
-            h.assume(reg.eval_clause(interp, h, clause))
+            h.assume(reg.eval_clause(interp, h, clause), tag=f"inv:{lab}")
         h.trace.append(f"{tag}:arbitrary-iteration")
         outs = []
         # 3. exit state
@@ -316,17 +334,23 @@ class LoopRunner:
         if not ctx.feasible(b):
             ctx.notes.append(f"{tag}: loop body unreachable under the invariant")
             return exit_outs
-        body_outs = interp.exec_block(node.body, b)
+        prev_nm = ctx.options.get("no_merge", False)
+        if spec.no_merge:
+            ctx.options["no_merge"] = True
+        try:
+            body_outs = interp.exec_block(node.body, b)
+        finally:
+            ctx.options["no_merge"] = prev_nm
         for o in body_outs:
             if o.kind in ("normal", "continue"):
                 s = o.st
                 s.env["__prev__"] = prev_env
                 inv_state(s, (k + 1) if k is not None else None)
-                for lem in spec.lemmas:
-                    s.assume(reg.eval_clause(interp, s, lem))
+                for li, lem in enumerate(spec.lemmas):
+                    s.assume(reg.eval_clause(interp, s, lem), tag=f"lemma:{li}")
                 for lab, clause in spec.inv.items():
                     c = reg.eval_clause(interp, s, clause)
-                    ctx.oblige(s, c, f"{tag}.pres[{lab}]", node, "inv-pres", meta={"clause": clause})
+                    ctx.oblige(s, c, f"{tag}.pres[{lab}]", node, "inv-pres", meta={"clause": clause}, focus=spec.focus.get(lab))
             elif o.kind == "break":
                 o.st.env.pop("__entry__", None)
                 o.st.env.pop("_k", None)
